@@ -1169,6 +1169,8 @@ def applicable(kind, viol):
         return v not in ("bare_from_source", "down_bare", "not_generator")
     if kind == "down":
         return v in ("dtype_chunk", "dtype_selfchunk", "row_chunk", "label", "gap", "down_bare", "not_generator")
+    if kind == "overlap" and v == "gap":
+        return False      # the overlap-window plugin re-cuts its output at its own split points: the boundaries are not the plugin's
     return v in ("dtype_bare", "dtype_chunk", "dtype_selfchunk", "row_bare", "row_chunk", "label", "gap")
 
 
@@ -1180,9 +1182,13 @@ def scenario(case):
     Ctl.n, Ctl.viol, Ctl.bad_i, Ctl.ops, Ctl.invoked, Ctl.t0 = case.get("n", 4), viol, bad_i, [], 0, case.get("t0", 0)
     classes = build_classes(kind) + [down_class(kind)]
 
+    mw = case.get("max_workers")
+    # eager threaded pipeline: allow_lazy=False, or any max_workers > 1 (the processor then ignores allow_lazy)
+    lazy = not (mode in ("eager", "eager_slow") and not mw)
+
     def ctx_():
         return strax.Context(storage=[strax.DataDirectory(tmp)], register=classes, allow_multiprocess=False, timeout=30,
-                             allow_lazy=(mode != "eager_slow"))
+                             allow_lazy=lazy)
     res = dict(delivered=[])
     sink = io.StringIO()
     try:
@@ -1190,7 +1196,7 @@ def scenario(case):
             warnings.simplefilter("ignore")
             st = ctx_()
             try:
-                for c in st.get_iter("r0", target, processor=proc, progress_bar=False):
+                for c in st.get_iter("r0", target, processor=proc, progress_bar=False, max_workers=mw):
                     res["delivered"].append(dict(label=c.data_type, start=int(c.start), end=int(c.end), dtype=enc_stripped(c.data.dtype),
                                                  rows=rows_any(c.data)))
                     if mode == "eager_slow":
@@ -1219,7 +1225,7 @@ def scenario(case):
             Ctl.bad_i = None
             st3 = ctx_()
             try:
-                arr = st3.get_array("r0", target, processor=proc, progress_bar=False)
+                arr = st3.get_array("r0", target, processor=proc, progress_bar=False, max_workers=mw)
                 res["rerun"] = dict(ok=True, n=len(arr), rows=rows_any(arr), stored=bool(st3.is_stored("r0", target)))
             except Exception as e:  # noqa: BLE001
                 res["rerun"] = dict(ok=False, err=type(e).__name__ + ": " + str(e)[:80])
@@ -1232,7 +1238,7 @@ SCEN_CACHE: dict = {}
 
 
 def case_key(case):
-    return "|".join(str(case.get(k)) for k in ("kind", "viol", "bad_i", "processor", "target", "mode", "rep", "t0"))
+    return "|".join(str(case.get(k)) for k in ("kind", "viol", "bad_i", "processor", "target", "mode", "rep", "t0", "max_workers"))
 
 
 def impl_scenario(case):
@@ -1297,27 +1303,32 @@ def oracle_scenario(case, out):
     v = viol.partition(":")[0]
     msgs = []
     bad = case["bad_i"] is not None
+    # the listed finding F3 / D21 applies to exactly this: eager threaded pipeline with a slow consumer, gap/overlap in the target,
+    # the caller got the exception, and the TARGET ITSELF (pp) is what stayed in storage
+    f3 = (bad and v == "gap" and case["processor"] == "threaded_mailbox" and case.get("mode") == "eager_slow" and target == "pp"
+          and out.startswith("err") and bool(r["stored"].get("pp")))
     rr = r["rerun"]
     if not rr.get("ok"):
-        if bad and out.startswith("err") and r["stored"].get("pp") and v == "gap" and case.get("mode") == "eager_slow":
-            pass  # consequence of F3 below (the stored gapped data is loaded again)
-        else:
+        if not f3:      # under F3 the later run loads the stored gapped pp again: a consequence, not a second failure
             msgs.append(f"a subsequent correct run failed: {rr.get('err')}")
     elif rr["rows"] != expected_rows(case) or not rr["stored"]:
         msgs.append("a subsequent correct run returned other rows or did not store its target")
-    if r["stored_bad"]:
-        if not (v == "gap" and case.get("mode") == "eager_slow" and out.startswith("err")):
-            msgs.append("data left in storage as valid does not conform: " + "; ".join(r["stored_bad"]))
+    stored_bad = [m for m in r["stored_bad"] if not (f3 and m.startswith("pp:"))]
+    if stored_bad:
+        msgs.append("data left in storage as valid does not conform: " + "; ".join(stored_bad))
     if out.startswith("err"):
         if not bad:
             msgs.append(f"a well-behaved pipeline raised {r.get('exc')}")
         # (for the gap kinds the sibling output qq is itself continuous and correct: it may legitimately be stored)
         for d in (("pp", "down") if v == "gap" else ("pp", "qq", "down")):
-            if r["stored"].get(d):
-                if v == "gap" and case["processor"] == "threaded_mailbox" and case.get("mode") == "eager_slow" and d == "pp":
-                    return (f"{F3_TOKEN}: processor=threaded_mailbox eager: the caller got {r.get('exc')} for a target with a gap/overlap, "
-                            "but the target is left in storage as valid data")
+            if r["stored"].get(d) and not (f3 and d == "pp"):
                 msgs.append(f"processing stopped with {r.get('exc')} but {d} is stored as valid data")
+        if f3:
+            f3msg = (f"{F3_TOKEN}: processor=threaded_mailbox eager: the caller got {r.get('exc')} for a target with a gap/overlap, "
+                     "but the target is left in storage as valid data")
+            if not msgs:
+                return f3msg
+            msgs.append("(also: " + f3msg + ")")      # anything else wrong in the same scenario is NOT covered by the finding
     else:
         # nothing was raised: everything handed to the user must conform to the declaration
         decl = "time:<i8;endtime:<i8;cut_pp:b1" if (kind == "cut" and target == "pp") else enc_stripped(DT)
@@ -1337,39 +1348,196 @@ def oracle_scenario(case, out):
     return "; ".join(msgs) if msgs else None
 
 
+VIOLS = ["dtype_bare:type", "dtype_bare:extra", "dtype_bare:name", "dtype_bare:order", "dtype_chunk:type", "dtype_selfchunk:type",
+         "dtype_selfchunk:extra", "row_bare:late", "row_bare:early", "row_chunk:late", "row_chunk:early", "label",
+         "gap:before", "gap:after", "gap:overlap_before", "gap:overlap_after",
+         "non_dict:array", "non_dict:chunk", "non_dict:list", "non_dict:none", "missing_key",
+         "bare_from_source", "down_bare", "not_generator"]
+# variants of a kind already run at all three positions: one random position is enough in the quick tier
+SECONDARY = {"dtype_bare:extra", "dtype_bare:name", "dtype_bare:order", "dtype_selfchunk:extra", "row_chunk:early",
+             "non_dict:chunk", "non_dict:list", "non_dict:none"}
+
+
 def scenario_cases(ctx):
-    viols = ["dtype_bare:type", "dtype_bare:extra", "dtype_bare:name", "dtype_bare:order", "dtype_chunk:type", "dtype_selfchunk:type",
-             "dtype_selfchunk:extra", "row_bare:late", "row_bare:early", "row_chunk:late", "row_chunk:early", "label",
-             "gap:before", "gap:after", "gap:overlap_before", "gap:overlap_after",
-             "non_dict:array", "non_dict:chunk", "non_dict:list", "non_dict:none", "missing_key",
-             "bare_from_source", "down_bare", "not_generator"]
     n = 4
     cases = []
     for kind in KINDS:
         for proc in ("single_thread", "threaded_mailbox"):
             cases.append(dict(kind=kind, viol="none", bad_i=None, processor=proc, target="pp", n=n))
             cases.append(dict(kind=kind, viol="none", bad_i=None, processor=proc, target="down", n=n))
-            for viol in viols:
+            for viol in VIOLS:
                 if not applicable(kind, viol):
                     continue
-                for bad_i in (0, ctx.rng.choice([1, 2]), n - 1):
+                positions = (0, ctx.rng.choice([1, 2]), n - 1)
+                if viol in SECONDARY and not ctx.thorough:
+                    positions = (ctx.rng.choice(positions),)
+                for bad_i in positions:
                     cases.append(dict(kind=kind, viol=viol, bad_i=bad_i, processor=proc, target="pp", n=n))
                     if ctx.thorough and bad_i in (1, 2):
                         cases.append(dict(kind=kind, viol=viol, bad_i=3 - bad_i, processor=proc, target="pp", n=n))
-                if not viol.startswith("gap"):
+                if not viol.startswith("gap") and (ctx.thorough or viol not in SECONDARY):
                     # nothing derived from the offending output may be stored either
                     for bad_i in ((0, 1, n - 1) if ctx.thorough else (ctx.rng.choice([0, 1, 2, n - 1]),)):
                         cases.append(dict(kind=kind, viol=viol, bad_i=bad_i, processor=proc, target="down", n=n))
     return cases
 
 
+def eager_scenario_cases(ctx):
+    """the threaded processor in EAGER mode (allow_lazy=False; max_workers=2) with a fast consumer: every violation kind that is
+    raised inside the pipeline (the gap kinds are detected by the consumer and belong to the F3 probe below)"""
+    n = 4
+    cases = []
+    for kind in KINDS:
+        for extra in (dict(mode="eager"), dict(max_workers=2)):
+            cases.append(dict(kind=kind, viol="none", bad_i=None, processor="threaded_mailbox", target="pp", n=n, **extra))
+            for viol in VIOLS:
+                if viol.startswith("gap") or not applicable(kind, viol) or (viol in SECONDARY and not ctx.thorough):
+                    continue
+                for bad_i in ((0, 1, n - 1) if ctx.thorough else (ctx.rng.choice([0, 1, 2, n - 1]),)):
+                    tgt = "pp" if ctx.thorough or ctx.rng.random() < 0.7 else "down"
+                    cases.append(dict(kind=kind, viol=viol, bad_i=bad_i, processor="threaded_mailbox", target=tgt, n=n, **extra))
+    return cases
+
+
 def eager_cases():
-    """deterministic reproducer of F3: eager threaded pipeline, consumer slower than the pipeline"""
-    return [dict(kind="source", viol="gap:before", bad_i=b, processor="threaded_mailbox", target="pp", n=4, mode="eager_slow") for b in (1, 2, 3)]
+    """reproducer of F3 / D21: eager threaded pipeline (allow_lazy=False, or max_workers=2), consumer slower than the pipeline"""
+    out = [dict(kind="source", viol="gap:before", bad_i=b, processor="threaded_mailbox", target="pp", n=4, mode="eager_slow") for b in (1, 2, 3)]
+    out += [dict(kind=k, viol=v, bad_i=2, processor="threaded_mailbox", target="pp", n=4, mode="eager_slow", max_workers=2)
+            for k, v in (("ordinary", "gap:overlap_before"), ("down", "gap:after"))]
+    return out
 
 
 def branch_scenario(c, o):
     return f"{c['viol'].partition(':')[0]}:{c['kind']}:{'first' if c['bad_i'] == 0 else 'last' if c['bad_i'] == c.get('n', 4) - 1 else 'none' if c['bad_i'] is None else 'middle'}:{o}"
+
+
+# ----------------------------------------------------------------------------- 8. the saver protocol of the single-thread processor
+class RecSaver(strax.Saver):
+    """a real strax.Saver (save / close logic of the base class) that records instead of writing"""
+    allow_rechunk = False
+
+    def __init__(self, metadata, log):
+        super().__init__(metadata)
+        self.log = log
+
+    def _save_chunk(self, data, chunk_info, executor=None):
+        return dict(), None
+
+    def _save_chunk_metadata(self, chunk_info):
+        self.md["chunks"].append(chunk_info)
+        self.log.append(("save", int(chunk_info["start"]), int(chunk_info["end"])))
+
+    def _close(self):
+        self.log.append(("close", "exception" in self.md))
+
+
+def run_protocol(script):
+    """script: list of [a, b] (an accepted chunk) | "!" (label violation -> ValueError) | "!P" (wrong dtype -> PluginGaveWrongOutput)"""
+    log = []
+
+    class Scripted(strax.Plugin):
+        provides = "pp"
+        depends_on = ()
+        dtype = DT
+        data_kind = "pk"
+        rechunk_on_save = False
+
+        def source_finished(self):
+            return True
+
+        def is_ready(self, chunk_i):
+            return chunk_i < len(script)
+
+        def compute(self, chunk_i):
+            it = script[chunk_i]
+            if it == "!":
+                return strax.Chunk(start=0, end=1, data=np.zeros(0, DT), dtype=DT, data_type="zzz", data_kind="pk", run_id="r0")
+            if it == "!P":
+                w = wrong_variants(DT)["type"]
+                return strax.Chunk(start=0, end=1, data=np.zeros(0, w), dtype=w, data_type="pp", data_kind="pk", run_id="r0")
+            return self.chunk(start=it[0], end=it[1], data=np.zeros(0, DT))
+
+    st = strax.Context(storage=[], register=[Scripted], allow_multiprocess=False)
+    orig = st.get_components
+
+    def get_components(*a, **k):
+        comps = orig(*a, **k)
+        return comps._replace(savers={"pp": [RecSaver(comps.plugins["pp"].metadata("r0", "pp"), log)]})
+    st.get_components = get_components
+    delivered = 0
+    err = None
+    sink = io.StringIO()
+    with warnings.catch_warnings(), contextlib.redirect_stdout(sink), contextlib.redirect_stderr(sink):
+        warnings.simplefilter("ignore")
+        try:
+            for _ in st.get_iter("r0", "pp", processor="single_thread", progress_bar=False):
+                delivered += 1
+        except Exception as e:  # noqa: BLE001
+            err = sl.err_name(e)
+    saves = [x for x in log if x[0] == "save"]
+    closes = [x for x in log if x[0] == "close"]
+    visible = len(closes) == 1 and closes[0][1] is False
+    return delivered, err, saves, closes, visible
+
+
+def impl_protocol(case):
+    delivered, err, saves, closes, visible = run_protocol(case["script"])
+    if len(closes) > 1:
+        return "saver closed more than once"
+    vis = "stored" if visible else "not-stored"
+    head = f"ok {delivered}" if err is None else f"err {err} after {delivered}"
+    return f"{head} {vis} written={len(saves)} closed={len(closes)}"
+
+
+def op_protocol(case):
+    return "c12.process " + ",".join(it if isinstance(it, str) else f"{it[0]}:{it[1]}" for it in case["script"])
+
+
+def oracle_protocol(case, out):
+    script = case["script"]
+    first_bad = next((i for i, it in enumerate(script) if isinstance(it, str)), None)
+    first_break = next((i + 1 for i in range(len(script) - 1)
+                        if not isinstance(script[i], str) and not isinstance(script[i + 1], str) and script[i][1] != script[i + 1][0]), None)
+    offending = min([x for x in (first_bad, first_break) if x is not None], default=None)
+    if out.startswith("saver closed"):
+        return out
+    ok = out.startswith("ok")
+    if offending is not None:
+        if ok:
+            return "an offending output did not stop processing with an exception"
+        if " stored " in out:
+            return "processing stopped with an exception but the saver was closed as valid"
+        if int(out.split(" ")[3]) > offending:
+            return "the offending chunk (or a later one) was handed to the user"
+    else:
+        if not ok or " not-stored " in out:
+            return f"a well-behaved stream was refused or not stored: {out}"
+    return None
+
+
+def protocol_cases(ctx):
+    rng = ctx.rng
+    ivs = [[a, b] for a, b in gen.intervals(0, 2, True)]
+    syms = ivs + ["!", "!P"]
+    cases = [dict(script=list(c)) for n in (1, 2, 3) for c in itertools.product(syms, repeat=n)]
+    four = [dict(script=list(c)) for c in itertools.product(syms, repeat=4)]
+    cases += four if ctx.thorough else rng.sample(four, 1200)
+    # longer, mostly contiguous streams with at most one defect
+    for _ in range(ctx.pick(400, 3000)):
+        t, script = rng.randint(0, 3), []
+        for _ in range(rng.randint(1, 7)):
+            e = t + rng.randint(0, 3)
+            script.append([t, e])
+            t = e
+        r = rng.random()
+        if r < 0.3:
+            script[rng.randrange(len(script))] = rng.choice(["!", "!P"])
+        elif r < 0.6 and len(script) > 1:
+            i = rng.randrange(1, len(script))
+            d = rng.choice([-1, 1])
+            script[i] = [max(0, script[i][0] + d), max(script[i][1], script[i][0] + d, 0)]
+        cases.append(dict(script=script))
+    return cases
 
 
 # ----------------------------------------------------------------------------- run
@@ -1443,8 +1611,23 @@ def run(ctx):
                         "threaded_mailbox) x target (the plugin's output, or a plugin derived from it) on a real Context with a fresh "
                         "DataDirectory; plus the well-behaved pipeline of every kind",
                    branch=branch_scenario, max_samples=6)
+    ctx.correspond("pipeline/eager", eager_scenario_cases(ctx), impl_scenario, op_scenario, oracle_scenario, model_post=model_post_scenario,
+                   nontrivial=lambda c, o: c["bad_i"] is not None,
+                   rule="threaded_mailbox in EAGER mode — allow_lazy=False, and max_workers=2 — with a fast consumer: every violation kind "
+                        "raised inside the pipeline x plugin kind, one random position, target = the output or a derived plugin; "
+                        "stored is evaluated after get_iter returned (threads joined, executors shut down)",
+                   branch=lambda c, o: ("mw2" if c.get("max_workers") else "nolazy") + ":" + branch_scenario(c, o))
+    pcs = protocol_cases(ctx)
+    ctx.correspond("saver_protocol", pcs, impl_protocol, op_protocol, oracle_protocol, exhaustive=True,
+                   nontrivial=lambda c, o: len(c["script"]) >= 2,
+                   rule="tie of Contract.process: a scripted source (accepted chunks [a,b) on grid 0..2, or outputs rejected by _fix_output with "
+                        "ValueError / PluginGaveWrongOutput) run through the real Context.get_iter + SingleThreadProcessor with a recording "
+                        "strax.Saver: compared = chunks delivered, error kind, number of save calls, saver closed (once) and whether an exception was recorded; "
+                        "all scripts of <= 3 outputs, a sample of those with 4, and longer mostly contiguous streams with at most one defect",
+                   branch=lambda c, o: " ".join(o.split(" ")[:2]) + ":" + o.split(" ")[-3])
     ctx.correspond("pipeline/eager-slow-consumer", eager_cases(), impl_scenario, None, oracle_scenario, nontrivial=lambda c, o: True,
-                   rule="F3 reproducer: gap in the target, threaded_mailbox with allow_lazy=False, consumer sleeping 150 ms per chunk", branch=branch_scenario)
+                   rule="F3 / D21 reproducer: gap or overlap in the target, threaded_mailbox with allow_lazy=False or max_workers=2, consumer sleeping "
+                        "150 ms per chunk", branch=branch_scenario)
     run_epoch(ctx)
 
 
@@ -1502,7 +1685,7 @@ def search(ctx):
 REPLAYERS = {
     "chunk_init": (impl_chunk, oracle_chunk), "check_dtype": (impl_checkdtype, oracle_checkdtype), "fix_output": (impl_fix, oracle_fix),
     "fix_output_down": (impl_fixdown, oracle_fixdown), "continuity": (impl_stream, oracle_stream), "fix_dtype": (impl_fixdtype, oracle_fixdtype),
-    "pipeline": (impl_scenario, oracle_scenario),
+    "pipeline": (impl_scenario, oracle_scenario), "saver_protocol": (impl_protocol, oracle_protocol),
 }
 EPOCH_ALIAS = {"chunk_init": "chunk_init", "continuity": "continuity", "fix_output": "fix_output", "pipeline": "pipeline"}
 
